@@ -162,7 +162,7 @@ pub fn run(args: &[String]) {
                             let use_sentinel = end != "upgraded" && !trunc;
                             let obs = run_socket(&sock_addr, log, &chunks, if use_sentinel { Some(&sentinel_bytes) } else { None }, &stok, up_tok.as_deref());
                             if use_sentinel && end == "open" {
-                                creqs.push(CReq { kind: "GenOk".into(), tok: stok.clone(), bytes: sentinel_bytes[..sentinel_bytes.len() - 1].to_vec(), method: "org.example.gen.Ping".into(), more: false, oneway: false, script: vec![] });
+                                creqs.push(CReq { kind: "GenOk".into(), tok: stok.clone(), bytes: sentinel_bytes[..sentinel_bytes.len() - 1].to_vec(), method: "org.example.gen.Ping".into(), more: false, oneway: false, script: vec![], raw_full: None });
                                 out_items.as_array_mut().unwrap().push(json!({"req": creqs.len(), "cont": false, "err": "", "arg": "pong"}));
                                 results.as_array_mut().unwrap().push(json!([]));
                             }
